@@ -479,6 +479,8 @@ type Result struct {
 	MaxTrace     int
 	Steps        int64
 	chains       map[string]string
+	ViolationCounts map[string]int64 // per kind|msg|tag (only the first 3 of each are kept in Violations)
+	TotalViolations int64
 }
 
 type queued struct {
@@ -611,7 +613,7 @@ func (ex *Explorer) worker(k int) {
 			ex.res.Budget[fmt.Sprintf("time budget reached with %d prefixes queued", len(ex.queue))]++
 			ex.stop = true
 		}
-		if ex.cfg.StopAfterViolations > 0 && len(ex.res.Violations) >= ex.cfg.StopAfterViolations {
+		if ex.cfg.StopAfterViolations > 0 && ex.res.TotalViolations >= int64(ex.cfg.StopAfterViolations) {
 			ex.stop = true
 		}
 		ex.cond.Broadcast()
@@ -683,7 +685,17 @@ func (ex *Explorer) merge(pr *pathResult) {
 	default:
 		r.Unsupported["unknown path status "+pr.status+": "+pr.reason]++
 	}
-	r.Violations = append(r.Violations, ps.violations...)
+	for _, v := range ps.violations {
+		k := v.Kind + "|" + v.Msg + "|" + v.Tag
+		if r.ViolationCounts == nil {
+			r.ViolationCounts = map[string]int64{}
+		}
+		r.ViolationCounts[k]++
+		r.TotalViolations++
+		if r.ViolationCounts[k] <= 3 {
+			r.Violations = append(r.Violations, v)
+		}
+	}
 }
 
 // modelNoSolver is filled by runPath at the end of a completed path (the
@@ -723,7 +735,7 @@ func sortedKeys[V any](m map[string]V) []string {
 func (r *Result) Summary() string {
 	var sb strings.Builder
 	fmt.Fprintf(&sb, "paths=%d completed=%d infeasible=%d assumed-away=%d solver-decisions=%d choices=%d queries=%d solver=%.1fs obligations=%d discharged=%d violations=%d wall=%.1fs exhaustive=%v instr=%d",
-		r.Paths, r.Completed, r.Infeasible, r.Assumed, r.Decisions, r.Choices, r.Queries, r.SolverTime.Seconds(), r.Obligations, r.Discharged, len(r.Violations), r.Wall.Seconds(), r.Exhaustive, r.Steps)
+		r.Paths, r.Completed, r.Infeasible, r.Assumed, r.Decisions, r.Choices, r.Queries, r.SolverTime.Seconds(), r.Obligations, r.Discharged, r.TotalViolations, r.Wall.Seconds(), r.Exhaustive, r.Steps)
 	for _, k := range sortedKeys(r.Unsupported) {
 		fmt.Fprintf(&sb, "\n  UNSUPPORTED x%d: %s", r.Unsupported[k], k)
 	}
